@@ -44,6 +44,10 @@ CHECKS.update({
     'C15': dict(text='Proved: normalisation is idempotent and its output type has no mutable constructor; exactly the trees containing an unsupported object or non-string key are rejected (C15_rejects_exactly); == is reflexive on NaN-free values and false across classes; a pickled copy equals the freshly constructed task incl. what post_init derives and carries no results/context (C15_pickle_copy, for the __setstate__ read from the source). Symmetry/transitivity of == and hash consistency are validated by correspondence only (Python scalar semantics).',
                 design='6/C15', technique='Coq proofs over value grammar (nested induction) + differential correspondence of constructor/==/pickle', note=VAL_NOTE),
 })
+CHECKS['C18'] = dict(
+    text='Proved for every key/filename/mode string and every result of pathlib resolve (oracle; symlinks, dot segments, absolute operands, loops live inside it): all filesystem effects of exists/file_handle/delete act on root\'/c (stat, mkdir, rmtree) or root\'/c/f (open) for one component c per call, given the guards read from storage.py (C18_*_confined); empty/forbidden-character keys are rejected before any access (C18_key_chars); without the filename guard confinement is refuted (C18_file_guard_needed). Partial: that acting on a resolved path touches exactly that path (no symlink left in it) and TOCTOU are the runtime\'s; the sandbox correspondence (real LocalStorage on layouts with symlinks to outside/sibling/self/loop/dangling targets, before/after snapshots) validates it.',
+    design='6/C18', technique='Coq proof over guard logic with resolve as oracle + sandbox differential testing',
+    note='Theorems are about Model/Paths.v; pathlib.Path.resolve and the OS are oracles (recorded from the real runtime and fed to the model). Tie: Gen/SrcParams.v extracts the forbidden characters and the presence/shape of the three guards; correspondence compares outcome class and touched paths per call. Print Assumptions: closed.')
 NOT_YET = {}
 
 
